@@ -79,3 +79,5 @@ func replayMain(casesPath string) {
 		fmt.Fprintf(out, "%s\t%s\n", strings.Join(f, "\t"), rp(f))
 	}
 }
+
+func sortStrings(x []string) { sort.Strings(x) }
